@@ -75,6 +75,39 @@ CLAIMED.update({
         note="trusts token.EXACT_TOKEN_TYPES / keyword of the running interpreter; the CFG reading over-approximates the PEG, so pair-absence is sound"),
 })
 
+CLAIMED.update({
+    "C05": dict(
+        technique="symbolic evaluation of the sugar builders (abstract interpreter with shape and location provenance) compared with the documented translation table; placement rules on the grammar IR",
+        category="other",
+        text="Decides: each builder returns exactly the documented translation shape; the xonsh alternatives sit in the rule all expression positions bottom out in and every plain-NAME expression leaf is that rule's atom or an excluded position; the returned node carries the span the builder was called with; $NAME and ${expr} are offered as Store targets. Tree equality with the written-out translation in every surrounding context is NOT decided.",
+        note="trusts absint's abstract semantics and the translation table taken from the property statement"),
+    "C06": dict(
+        technique="table extraction from the IR, symbolic evaluation of builders (shape + span provenance), structural rules on the word-assembly loop",
+        category="other",
+        text="Decides: the four bracket forms map to the four runtime methods, @(..) and @$(..) build the starred helper calls, adjacency compares end with start pairs, pieces are walked in order and a word is emitted exactly at a non-adjacent boundary, no helper shifts a piece's own start column, WS tokens are dropped outside raw capture, a word is Constant(tok.string) over the token's span and gluing is previous+current. Word splitting over all spellings (how every spelling tokenizes) is NOT decided.",
+        note="token coordinates assumed right (C08)"),
+    "C07": dict(
+        technique="must-pass-through on the scanner's CFG, delimiter-table agreement, flag typestate (setter/cut/consumer/reset on all paths), symbolic evaluation of the macro builders",
+        category="other",
+        text="Decides: every non-delimiter token is appended before the next is fetched, arguments end only at top-level , or ), spans run first-start..last-end, block capture skips only structural tokens and keeps whole lines, bracket tables agree with the tokenizer, each macro flag has one setter committed by a cut and a consumer that resets it on all paths, builders pass raw text in order, INDENT/DEDENT swallowed in balance. Fidelity over all argument texts is NOT decided.",
+        note="token text equals source text (C08)"),
+    "C08": dict(
+        technique="per-construction-site symbolic check that token text is the slice of its span, accumulation/position pairing, regex group/width facts from the folded master pattern",
+        category="other",
+        text="Decides for every TokenInfo(...) site of tokenize.py that text == line[start:end] (slice, single character, stripped prefix, empty text, delimiter placed at the end of the preceding middle token), that multi-line accumulation appends exactly the unread slice and moves the position to its end, that every alternative of the master pattern is one named group at least one character wide and every advance yields a token / starts an accumulation / is a continuation, that INDENT/DEDENT pair with pushes/pops and the stream ends DEDENT* ENDMARKER, and that position writes are monotone.",
+        note="a regex match starts where it was asked to; synthetic MACRO_PARAM tokens of the parser-side wrapper are outside C08"),
+    "C09": dict(
+        technique="constant folding of the tokenizer's tables + regex automata (equivalence, prefix-freeness, intersection emptiness) against the running interpreter's tokenize/token tables; finite-domain evaluation of the indentation arithmetic; token-pair adjacency of the Python fragment",
+        category="other",
+        text="Decides agreement of every table and sub-language the two tokenizers are built from (number/name/comment patterns, string bodies and prefixes, operator set and longest-first order, tab stops and column arithmetic, bracket-depth tests) and non-interference of the xonsh additions. Equality of token streams for all sources is NOT decided.",
+        note="stdlib tokenize/token of the running interpreter is the oracle; quick tier samples the alphabet partition, thorough scans all code points"),
+    "C10": dict(
+        technique="mode/pattern table extraction by constant folding, regex automata intersection with witnesses, push/pop pairing rules, finite-domain evaluation of the conversion check",
+        category="other",
+        text="Decides the scanner's tables and pairing (which delimiters each mode can see, that the brace search cannot cross an unescaped closing quote or stop at a doubled brace, exact push/pop of modes and bracket depth) and the grammar side (conversion accepts exactly s r a, conversion value, spec is a JoinedStr). Four deviations present today are listed known findings with witnesses. Agreement with CPython over all f-strings is NOT decided.",
+        note="the f-string scanner is known to be wrong in several independent ways; the check keeps those identified and reports anything new"),
+})
+
 NOT_APPLICABLE = {
     "C17": "quantifies over all grammars x all token strings; semantic equivalence of emitted code and a PEG interpreter cannot be decided from the shape of the generator source (DESIGN.md §5)",
 }
